@@ -40,8 +40,8 @@ ASSUMPTIONS = [
     "an empty chunk result may be '' or b'' (codecs.iterencode/iterdecode skip falsy chunks)",
 ]
 MIN_EVENTS = {
-    'quick': {'oracle.detect.final': 30000, 'oracle.detect.monotone': 30000, 'oracle.roundtrip': 500, 'oracle.chunking': 20000, 'partitions.exhaustive-inputs': 30},
-    'thorough': {'oracle.detect.final': 30000, 'oracle.detect.monotone': 30000, 'oracle.roundtrip': 500, 'oracle.chunking': 400000, 'partitions.exhaustive-inputs': 100},
+    'quick': {'oracle.detect.final': 25000, 'oracle.detect.monotone': 25000, 'oracle.roundtrip': 500, 'oracle.chunking': 20000, 'partitions.exhaustive-inputs': 30},
+    'thorough': {'oracle.detect.final': 25000, 'oracle.detect.monotone': 25000, 'oracle.roundtrip': 500, 'oracle.chunking': 400000, 'partitions.exhaustive-inputs': 100},
 }
 
 CLASSES = [0x00, 0x40, 0x63, 0x68, 0x61, 0xEF, 0xBB, 0xBF, 0xFE, 0xFF, 0x41, 0x22, 0x80]
